@@ -10,7 +10,10 @@ use cairo_lang_syntax::attribute::structured::{Attribute, AttributeListStructuri
 use cairo_lang_syntax::node::{TypedStablePtr, TypedSyntaxNode};
 use salsa::Database;
 
-use super::generics::{GenericParamsData, semantic_generic_params};
+use super::generics::{
+    GenericParamsData, generic_params_data_cycle, generic_params_data_initial,
+    semantic_generic_params,
+};
 use super::report_extern_item_outside_corelib;
 use crate::diagnostic::SemanticDiagnosticKind::*;
 use crate::diagnostic::{SemanticDiagnostics, SemanticDiagnosticsBuilder};
@@ -67,7 +70,7 @@ fn extern_type_declaration_generic_params_data<'db>(
 }
 
 /// Query implementation of [ExternTypeSemantic::extern_type_declaration_generic_params_data].
-#[salsa::tracked(returns(clone))]
+#[salsa::tracked(returns(ref), cycle_fn=generic_params_data_cycle, cycle_initial=generic_params_data_initial)]
 fn extern_type_declaration_generic_params_data_tracked<'db>(
     db: &'db dyn Database,
     extern_type_id: ExternTypeId<'db>,
@@ -85,9 +88,8 @@ fn extern_type_declaration_data<'db>(
     let extern_type_syntax = db.module_extern_type_by_id(extern_type_id)?;
 
     // Generic params.
-    let generic_params_data_result =
-        extern_type_declaration_generic_params_data(db, extern_type_id);
-    let generic_params_data = generic_params_data_result.maybe_as_ref()?;
+    let generic_params_data =
+        extern_type_declaration_generic_params_data_tracked(db, extern_type_id).maybe_as_ref()?;
     let generic_params = generic_params_data.generic_params.clone();
     let inference_id = InferenceId::LookupItemDeclaration(LookupItemId::ModuleItem(
         ModuleItemId::ExternType(extern_type_id),
@@ -128,8 +130,12 @@ pub trait ExternTypeSemantic<'db>: Database {
         &'db self,
         extern_type_id: ExternTypeId<'db>,
     ) -> Maybe<&'db [GenericParam<'db>]> {
+        // Read through the generic-params query (which handles cycles such as
+        // `extern type A<const C: A>;`), as structs and enums do.
         let db = self.as_dyn_database();
-        Ok(&extern_type_declaration_data(db, extern_type_id).maybe_as_ref()?.generic_params)
+        Ok(&extern_type_declaration_generic_params_data_tracked(db, extern_type_id)
+            .maybe_as_ref()?
+            .generic_params)
     }
     /// Returns the generic params data of an extern type.
     fn extern_type_declaration_generic_params_data(
@@ -137,6 +143,7 @@ pub trait ExternTypeSemantic<'db>: Database {
         extern_type_id: ExternTypeId<'db>,
     ) -> Maybe<GenericParamsData<'db>> {
         extern_type_declaration_generic_params_data_tracked(self.as_dyn_database(), extern_type_id)
+            .clone()
     }
     /// Returns the attributes of an extern type.
     fn extern_type_attributes(
